@@ -30,6 +30,10 @@ func boolConst(b bool, t types.Type) *ssa.Const { return ssa.NewConst(constant.M
 
 func runC04(c *Ctx) {
 	p := c.P
+	// shared rule: an object counts as present only together with its size (rules_c09.go)
+	objectPresenceRule(c, "R6", getStoreFlow(p))
+	// shared rule: history/tree scanners stop only at the end of their input (rules_c05.go)
+	scannerVerdictRule(c, "R7")
 	run := p.Fn("commands", "(*singleCheckout).Run")
 	if run == nil {
 		c.Missing("R1", "(*singleCheckout).Run", "not found")
